@@ -73,6 +73,8 @@ class TileEngine(Engine):
     def binop(self, op, a, b, node=None):
         if isinstance(a, Span) and isinstance(b, Span) and op == '+':
             return Span(a.length + b.length)
+        if isinstance(a, CountList) and isinstance(b, CountList) and op == '+':
+            return CountList(a.n + b.n)
         return super().binop(op, a, b, node)
 
     def assign(self, t, v):
@@ -272,6 +274,206 @@ def check_defb_lines(rep):
     FuncVC(rep, 'C01', fn, 'skoolkit.disassembler.Disassembler._defb_lines', eng).run(start, post, None)
 
 
+# ------------------------------------------------------------------ P: the chunk loop of Disassembly._create_entries
+def entries_slice(fn):
+    """The data sub-block branch of _create_entries, taken from the function's own AST: the statement
+    `address = sub_block.start` and the if/elif chain that follows it (inside `for sub_block in block.blocks`)."""
+    node, _ = func_ast(fn)
+    for loop in ast.walk(node):
+        if isinstance(loop, ast.For) and ast.unparse(loop.target) == 'sub_block':
+            for i, st in enumerate(loop.body):
+                if isinstance(st, ast.Assign) and ast.unparse(st).replace(' ', '') == 'address=sub_block.start' and i + 1 < len(loop.body) and isinstance(loop.body[i + 1], ast.If):
+                    whiles = [n for n in ast.walk(loop.body[i + 1]) if isinstance(n, ast.While)]
+                    if len(whiles) != 1:
+                        raise LookupError('_create_entries: expected one while loop in the sub-block branch')
+                    all_loops = sorted([n for n in ast.walk(node) if isinstance(n, (ast.For, ast.While))], key=lambda n: (n.lineno, n.col_offset))
+                    return [st, loop.body[i + 1]], all_loops.index(whiles[0]), loop.body[i + 2:]
+    raise LookupError('_create_entries: `address = sub_block.start` followed by the ctl if-chain not found')
+
+
+def check_entry_chunks(rep):
+    """Contract of the chunk loop (ghost cursor), for every data sub-block type b/g/s/t/u/w, 1..3 sublengths with
+    symbolic sizes, every (start, end):
+      * each def?_range(a, e, sublengths) call starts at the cursor (a == cursor < e <= sub_block.end), is the range
+        method that belongs to the ctl, and is handed the sub-block's own sublength list;
+      * the chunk is the statement (group) size, clipped to the sub-block: e - a == min(size, end - a) where size is the
+        DEFS size (sublengths[0][0]) for an 's' sub-block and the sum of the sublengths otherwise; with a first
+        sublength of 0 the chunk is the rest of the sub-block (e == end);
+      * progress (chunk length >= 1) and, at loop exit, cursor == sub_block.end (the chunks tile the sub-block);
+      * the list handed to _add_instructions is the one the chunks were added to.
+    The range methods are used through their contracts (statements covering [a, e): _defb_lines above, defs_range by
+    enumeration in C02's DEFS checks)."""
+    from skoolkit.snaskool import Disassembly
+    fn = Disassembly._create_entries
+    stmts, loop_ix, rest = entries_slice(fn)
+    with Pool(common.NCPU) as pool:
+        for sub in pool.imap_unordered(_entry_chunks_worker, [(ctl, nsub) for nsub in (3, 2, 1) for ctl in 'bgstuw']):
+            rep.merge(sub)
+    # the statement after the if-chain hands `instructions` over
+    nxt = ast.unparse(rest[0]).replace(' ', '') if rest else ''
+    ok = nxt == 'self._add_instructions(sub_block,instructions)'
+    rep.add('C01/_create_entries/instructions_handed_to_add_instructions', 'proved' if ok else 'failed', 'syntactic', 0.0, 'skoolkit.snaskool.Disassembly._create_entries[chunk loop]')
+    if not ok:
+        rep.violation('C01/_create_entries/instructions_handed_to_add_instructions', 'statement after the ctl if-chain is `%s`' % nxt, no_input=True)
+    rep.assume('control files are well-formed in the sense of the property: the DEFS size of an S directive divides the sub-block length (otherwise the last, clipped chunk is a DEFS statement longer than its bytes)')
+
+
+def _entry_chunks_worker(args):
+    sub = common.SubReport('C01')
+    try:
+        entry_chunks_case(sub, *args)
+    except Exception:
+        import traceback
+        sub.errors.append('_create_entries chunk loop %s: checker crashed: %s' % (args, traceback.format_exc()[-400:]))
+    return sub.export()
+
+
+def entry_chunks_case(rep, ctl, nsub):
+    from skoolkit.snaskool import Disassembly
+    from skoolkit.disassembler import Disassembler
+    from pyvc.engine import PathEnd, _Break, _Continue
+    W = poly.W
+    fn = Disassembly._create_entries
+    stmts, loop_ix, rest = entries_slice(fn)
+    q = fn.__qualname__
+    expected_method = {'b': 'defb_range', 'g': 'defb_range', 'u': 'defb_range', 's': 'defs_range', 't': 'defm_range', 'w': 'defw_range'}
+    if True:
+        if True:
+            name = 'skoolkit.snaskool.Disassembly._create_entries[chunk loop, ctl=%s, %d sublength%s]' % (ctl, nsub, '' if nsub == 1 else 's')
+
+            def start(eng, ctl=ctl, nsub=nsub):
+                p = eng.path
+                p.start = SV(z3.BitVec('start', W), 0, 65535)
+                p.end = SV(z3.BitVec('end', W), 1, 65536)
+                p.facts.extend([p.start.t >= 0, p.start.t < p.end.t, p.end.t <= 65536])
+                sizes = [SV(z3.BitVec('size%d' % i, W), 0, 65535) for i in range(nsub)]
+                for z in sizes:
+                    p.facts.extend([z.t >= 0, z.t <= 65535])
+                p.sizes = sizes
+                sublengths = tuple((z, 'n') for z in sizes)
+                p.sublengths = sublengths
+                total = sizes[0] if ctl == 's' else sum(sizes[1:], sizes[0])
+                p.total = total
+                p.cursor = p.start
+                p.calls = 0
+                sb = ObjModel(None, name='sub_block')
+                sb.attrs.update({'ctl': ctl, 'start': p.start, 'end': p.end, 'sublengths': sublengths})
+                p.result = CountList(0)
+
+                def rng(method):
+                    def f(e, args, kwargs, n):
+                        a, en = args[0], args[1]
+                        e.oblige('chunk.method_matches_ctl', method == expected_method[ctl], n)
+                        e.oblige('chunk.sublengths_passed_on', len(args) == 3 and args[2] is sublengths, n)
+                        e.oblige('chunk.starts_at_cursor', cmpop('==', a, p.cursor), n)
+                        e.oblige('chunk.nonempty', cmpop('<', a, en), n)
+                        e.oblige('chunk.inside_sub_block', cmpop('<=', en, p.end), n)
+                        rem = p.end - a
+                        # e - a == min(size, end - a), size = (sizes[0] != 0 ? total : end - start): one obligation per case
+                        nz = cmpop('!=', sizes[0], 0)
+                        e.oblige('chunk.is_statement_size', or_(not_(nz), not_(cmpop('<', p.total, rem)), cmpop('==', en - a, p.total)), n)
+                        e.oblige('chunk.is_clipped_to_sub_block', or_(not_(nz), cmpop('<', p.total, rem), cmpop('==', en, p.end)), n)
+                        e.oblige('chunk.is_whole_sub_block_without_sublengths', or_(nz, cmpop('==', en, p.end)), n)
+                        p.cursor = en
+                        p.calls += 1
+                        return CountList(e.fresh('n_statements', 1, 65536))
+                    return CallModel(f, method)
+                dis = ObjModel(None, name='disassembler', cls=Disassembler)
+                dis.attrs.update({m: rng(m) for m in ('defb_range', 'defm_range', 'defw_range', 'defs_range')})
+                dis.attrs['disassemble'] = CallModel(lambda e, a, k, n: e.oblige('chunk.no_code_disassembly_for_data', False, n), 'disassemble')
+                me = ObjModel(None, name='disassembly', cls=Disassembly)
+                me.attrs.update({'disassembler': dis})
+
+                def chunk_loop(e, node_):
+                    fr = e.frames[-1]
+                    length = fr.loc['length']
+                    e.oblige('inv.establish', and_(cmpop('==', fr.loc['address'], p.start), cmpop('==', p.cursor, p.start)), node_)
+                    e.oblige('progress.length_at_least_1', cmpop('>=', length, 1), node_)
+                    e.fresh_n += 1
+                    if e.decide(SB(z3.Bool('iterate!%d' % e.fresh_n))):
+                        a = e.fresh('address', 0, 65535)
+                        e.assume(and_(cmpop('>=', a, p.start), cmpop('<', a, p.end)))
+                        p.cursor = a
+                        fr.loc['address'] = a
+                        c0 = p.calls
+                        e.oblige('guard_holds_in_the_invariant_state', e.as_cond(e.ev_cond(node_.test)), node_)
+                        try:
+                            e.exec_block(node_.body)
+                        except (_Break, _Continue):
+                            pass
+                        e.oblige('inv.one_range_call_per_iteration', p.calls == c0 + 1, node_)
+                        a2 = e.frames[-1].loc['address']
+                        e.oblige('inv.preserve', or_(and_(cmpop('<', a2, p.end), cmpop('==', p.cursor, a2)), and_(cmpop('>=', a2, p.end), cmpop('==', p.cursor, p.end))), node_)
+                        raise PathEnd()
+                    # exit: the guard is false; by the invariant the cursor is at the end of the sub-block
+                    a3 = e.fresh('address_at_exit', 0, 1 << 18)
+                    e.assume(cmpop('>=', a3, p.end))
+                    fr.loc['address'] = a3
+                    p.cursor = p.end
+                    p.exited = True
+                eng.loop_invariants = {(q, loop_ix): chunk_loop}
+                eng.count_lists = True
+                p.locs = {'self': me, 'sub_block': sb, 'block': UNK, 'title': UNK}
+                eng.run_stmts(fn, stmts, p.locs, me)
+
+            def post(p, prove):
+                if getattr(p, 'exited', False):
+                    prove('post.chunks_tile_the_sub_block', cmpop('==', p.cursor, p.end))
+                    prove('post.instructions_bound', isinstance(p.locs.get('instructions'), CountList))
+
+            eng = TileEngine(inline_ok=lambda f: False, unknown_ok=True)
+            FuncVC(rep, 'C01', fn, name, eng).run(start, post, replay_entry_chunks)
+
+
+def replay_entry_chunks(vals, kind):
+    """Concrete search: S/B/T/W directives with sublength lists over a small image, sna2skool -> skool2bin."""
+    rnd = random.Random(11)
+    tmp = tempfile.mkdtemp(prefix='c01chunks_')
+    try:
+        for t in range(120):
+            org = 32768
+            v = rnd.randrange(1, 256)
+            size = rnd.choice((1, 2, 3, 4))
+            reps = rnd.randrange(2, 5)
+            n = size * reps
+            mem = [v] * n + [rnd.randrange(256) for _ in range(6)]
+            val = rnd.choice(('', ':c%d' % v if 32 <= v < 127 else ':%d' % v, ':h%d' % v, ':%d' % v))
+            kind_ = rnd.choice('sbtw')
+            if kind_ == 's':
+                ctl = 's %d\nS %d,%d,%d%s\nb %d\ni %d\n' % (org, org, n, size, val, org + n, org + len(mem))
+            else:
+                k = rnd.randrange(1, 4) * (2 if kind_ == 'w' else 1)
+                ctl = '%s %d\n%s %d,%d,%d:%d\ni %d\n' % (kind_, org, kind_.upper(), org, len(mem), k, k, org + len(mem))
+                if kind_ == 'w' and len(mem) % 2:
+                    continue
+            diffs = e2e_concrete(tmp, mem, org, ctl, rnd.choice(([], ['-H'], ['-H', '-l'])))
+            if diffs:
+                return {'case': {'org': org, 'bytes': mem, 'ctl': ctl}, 'diffs': diffs[:3]}
+    finally:
+        shutil.rmtree(tmp, ignore_errors=True)
+    return {'case': {}, 'diffs': []}
+
+
+def e2e_concrete(tmp, mem, org, ctl, opts):
+    """sna2skool (with the control file) then skool2bin; -> list of (address, expected byte, got)."""
+    from skoolkit import sna2skool, skool2bin
+    binf, ctlf, skoolf, outf = (os.path.join(tmp, x) for x in ('m.bin', 'm.ctl', 'm.skool', 'o.bin'))
+    with open(binf, 'wb') as f:
+        f.write(bytes(mem))
+    with open(ctlf, 'w') as f:
+        f.write(ctl)
+    skool, err = _run_main(sna2skool.main, ['-o', str(org), '-c', ctlf] + list(opts) + [binf])
+    with open(skoolf, 'w') as f:
+        f.write(skool)
+    _run_main(skool2bin.main, [skoolf, outf])
+    with open(outf, 'rb') as f:
+        out = list(f.read())
+    diffs = [(org + i, b, out[i] if i < len(out) else None) for i, b in enumerate(mem) if i >= len(out) or out[i] != b]
+    if len(out) != len(mem):
+        diffs.append(('length', len(mem), len(out)))
+    return diffs
+
+
 # ------------------------------------------------------------------ B: end-to-end
 def _run_main(mainf, args):
     out = io.StringIO()
@@ -324,6 +526,24 @@ def gen_ctl(rnd, mem, start, end):
             lines.append('%s %d,%d,%s%d' % (kind.upper(), a, n, base, k) + (':%s%d' % (rnd.choice('bdhn'), n - k)))
         elif kind == 'c' and n > 2 and rnd.random() < 0.3:
             lines.append('C %d,%s%d' % (a, rnd.choice('bdhnm'), n))
+        elif kind == 's' and n > 1 and rnd.random() < 0.6:
+            # S directive with a DEFS size that divides the run, and the optional byte-value element in its three spellings
+            size = rnd.choice([d for d in (1, 2, 3, 4, n) if n % d == 0])
+            v = mem[a]
+            val = rnd.choice(('', ':%s' % rnd.choice('bdhn'), ':%s%d' % (rnd.choice('bdhn'), v), ':%d' % v, ':c%d' % v if 32 <= v < 127 and v not in (34, 92) else ':%d' % v))
+            lines.append('S %d,%d,%s%d%s' % (a, n, rnd.choice(('', 'b', 'd', 'h')), size, val))
+        elif kind == 'w' and n >= 4 and rnd.random() < 0.5:
+            k = rnd.choice((2, 4))
+            lines.append('W %d,%d,%s%d%s' % (a, n, rnd.choice(('', 'b', 'd', 'h')), k, rnd.choice(('', '*2', ':%s2' % rnd.choice('dh')))))
+        elif kind in 'bt' and n > 3:
+            # '*' multipliers and a sublength list shorter than the sub-block (the list repeats)
+            # (the list never names more bytes than the sub-block has: k * mult + last <= n)
+            k = rnd.randrange(1, 4)
+            mult = rnd.randrange(1, 3)
+            if k * mult + 1 > n:
+                k, mult = 1, 1
+            last = rnd.randrange(1, min(4, n - k * mult + 1))
+            lines.append('%s %d,%d,%s%d*%d,%d' % (kind.upper(), a, n, rnd.choice(('', 'b', 'd', 'h', 'n')), k, mult, last))
         a += n
     lines.append('i %d' % end)
     return '\n'.join(lines) + '\n', ignored
@@ -397,6 +617,7 @@ def run(tier):
     decodevc.check_decode(rep, 'C01')
     check_disassemble(rep)
     check_defb_lines(rep)
+    check_entry_chunks(rep)          # Disassembly._create_entries: the chunks handed to the range methods tile every data sub-block
     quick = tier == 'quick'
     n = 160 if quick else 5000
     import itertools
@@ -441,7 +662,7 @@ def run(tier):
         rep.violation(key, 'data statement round trip fails: %s' % (b,), {'case': {'data_statement': list(b)[:8]}})
     bad = [r for r in res if r]
     rep.bounded.append({'function': 'skoolkit.sna2skool.main -> skoolkit.skool2bin.main', 'contract': 'output bytes == input bytes at every non-ignored address',
-                        'bound': '%d generated (memory, control file, options) triples: b/c/g/s/t/u/w/i blocks, B/T/C sub-blocks with base prefixes, -H/-l/-w, DefbSize/DefmSize/DefwSize/Opcodes/Wrap' % n, 'evaluations': n})
+                        'bound': '%d generated (memory, control file, options) triples: b/c/g/s/t/u/w/i blocks, B/T/C/S/W sub-blocks with base prefixes, sublength lists, * multipliers and DEFS value elements, -H/-l/-w, DefbSize/DefmSize/DefwSize/Opcodes/Wrap' % n, 'evaluations': n})
     seen = set()
     import re
     for b in bad:
